@@ -622,6 +622,6 @@ func c10Read(root any, c *C10Case, st *Stats, when string) (tfOutcome, error) {
 
 func init() {
 	Register("C10",
-		"trees with non-empty sigil-free keys (incl. numeric-looking keys, non-ASCII, spaces, keys with or ending in a backslash, keys with leading or trailing white space (next to their trimmed twins), keys made of shell-pattern characters (*, ?, [k]), and in one case of five keys re-encoded to bytes that are not valid UTF-8; with corrupted and arbitrary paths one key in six is the empty key, which no path may reach; long lists of 60-130 elements addressed near the end; chains of up to 70 levels walked with up to 80 segments; drawn construction routes) x paths from three classes: resolvable random walks (optionally in trees that also hold unaddressable distractor keys \"\", \"a.b\", \"#1\"), one-step corruptions of a resolvable path (15 kinds: segment dropped, sigil swapped, index = n, index > n, negative, key misspelt, trailing sigil, leading sigil removed/wrong/doubled, empty segment, non-numeric index, 21-digit index, one more segment past the end, non-canonical index spelling) and arbitrary strings over the path alphabet. Oracle: a resolver in the harness walks the implementation tree with Get/TypeOf/KeyExists/Count one segment at a time; resolvable => GetTF identical/equal and TypeOfTF = its kind; otherwise TypeOfTF = Undefined without panic and GetTF panics; index spellings outside canonical decimal that a base-0 or a base-10 integer parser accepts are only checked for panic-freedom; tree unchanged (content and identities). Non-trivial = resolved path with >= 2 segments using both sigils, or any corruption class. Distinct = distinct FNV-64a hash of the case JSON.",
+		"trees with non-empty sigil-free keys (incl. numeric-looking keys, non-ASCII, spaces, keys with or ending in a backslash, keys with leading or trailing white space (next to their trimmed twins), keys made of shell-pattern characters (*, ?, [k]), and in one case of five keys re-encoded to bytes that are not valid UTF-8; with corrupted and arbitrary paths one key in six is the empty key, which no path may reach; long lists of 60-130 elements addressed near the end; chains of up to 70 levels walked with up to 80 segments; drawn construction routes) x paths from three classes: resolvable random walks (optionally in trees that also hold unaddressable distractor keys \"\", \"a.b\", \"#1\"), one-step corruptions of a resolvable path (15 kinds: segment dropped, sigil swapped, index = n, index > n, negative, key misspelt, trailing sigil, leading sigil removed/wrong/doubled, empty segment, non-numeric index, 21-digit index, one more segment past the end, non-canonical index spelling) and arbitrary strings over the path alphabet. Oracle: a resolver in the harness walks the implementation tree with Get/TypeOf/KeyExists/Count one segment at a time; resolvable => GetTF identical/equal and TypeOfTF = its kind; otherwise TypeOfTF = Undefined without panic and GetTF panics; index spellings outside canonical decimal that a base-0 or a base-10 integer parser accepts are only checked for panic-freedom; tree unchanged (content and identities). Non-trivial = resolved path with >= 2 segments using both sigils, or any corruption class. Distinct = distinct FNV-64a hash of the case JSON. Index corruptions include spellings that become a small negative number when squeezed into a signed word (2^64-1-k, 2^63-1-k, 2^32-1-k). One case in 1500 is a path storm: 700-2187 distinct resolvable 7-segment paths into one tree are read in one go and then all once more (GetTF and TypeOfTF against the value known by construction).",
 		GenC10, CheckC10)
 }
